@@ -321,6 +321,7 @@ fn main() {
                     stop_at_first: true,
                     harvest_edges: std::env::var("EDGES").is_ok(),
                     check_from: 0,
+                    known: check::known_patterns(),
                 };
                 let r = hist::run_history(&cfg);
                 if show {
